@@ -4,7 +4,7 @@ From V Require Import Crash.Storage Crash.StorageProofs Crash.Protocol Crash.Toy
   Crash.Refuted Crash.Progress.
 From Coq Require Import Lia.
 
-Definition cfE := mkCfg 2 4 false 0 false.
+Definition cfE := mkCfg 2 4 false 0 true.
 Definition opsE := [OVal 0 [1; 2; 3]; OPre 0 [9]; OVal 0 [4]; OPre 0 [8]; OFlush FTx 50;
                     OSyncStart; OSyncV 0; OSyncTx; OFlush FCm 60; OSyncC; OVal 0 [5; 5]; OPre 0 [7]; OFlush FTx 1000; OFlush (FVal 0) 100].
 Definition sE := get (run Hc (init Hc cfE 1) opsE) (init Hc cfE 1).
